@@ -18,9 +18,6 @@ R = [
     (r"^ToUnicodeCMap::get::\{closure#0\}$", r"index:usize", r"vec_of_strings", "FINDING", "bfrange array target shorter than its range is indexed out of bounds"),
     (r"^ToUnicodeCMap::get::\{closure#0\}$", r"overflow:Add", r"", "FINDING", "bfrange offset added to the last UTF-16 unit overflows u16"),
     (r"^<PageTreeIter as Iterator>::size_hint$", r"iter-arith", r"sum", "FINDING", "size_hint sums /Count values from the file (overflow; lower bound far above the real page count makes collect() panic)"),
-    (r"^Document::build_outline_result$", r"index:usize", r"obj_array", "FINDING", "destination array from the file is indexed [0]/[1] without a length check (empty /Dest panics in get_toc)"),
-    (r"^Document::get_named_destinations$", r"", r"", "FINDING", "get_named_destinations unwraps and indexes name-tree entries taken from the file"),
-    (r"^Document::get_page_images$", r"index:usize", r"array,0", "FINDING", "/ColorSpace array from the file is indexed [0] without a length check"),
 
     # ---- reviewed safe
     (r"CryptFilter>::compute_key$", r"index:RangeTo", r"key_len", "SAFE", "key_len = min(key.len()+5, 16) and an MD5 digest is 16 bytes"),
